@@ -101,8 +101,8 @@ Theorem C07_enums :
   lenN HandRankClass_ORDER = lenN HandRankClass_NAMES.
 Proof. exact enums_ok. Qed.
 
-(* on the tree BEFORE the repair (all invalid ranks compare Equal) the property fails: the
-   comparison as currently written in src/hand_rank.rs says Equal for two ranks that are not == *)
+(* historical: on the pinned tree BEFORE the repair (fix: commit 262747d; all invalid ranks compared Equal) the
+   property failed: that comparison says Equal for two ranks that are not == *)
 Theorem C07_unrepaired_refuted :
   hr_cmp_unrepaired (hr_from 0) (hr_from 7463) = Eq /\ hr_eqb (hr_from 0) (hr_from 7463) = false /\
   (forall a b, is_invalid a && is_invalid b = false -> hr_cmp_unrepaired a b = hr_cmp a b).
